@@ -459,6 +459,23 @@ impl<'a> World<'a> {
                 }
             }
         }
+        // The composite is only meaningful if every offered package's source snapshot sees the
+        // other offered packages exactly as their own snapshots define them. (Sources edited
+        // together with a dependency — e.g. literals rewritten for swapped fields — may still
+        // have been built against the dependency's *old* interface; the generator's positional
+        // expression model cannot evaluate such a mix, so no prediction is made for it.)
+        for i in infos {
+            let si = &self.snapshots[i.snapshot];
+            for j in infos {
+                let sj = &self.snapshots[j.snapshot];
+                if let (Some(pj_in_i), Some(pj_in_j)) = (si.pkgs.iter().position(|p| p.name == j.pkg), sj.pkgs.iter().position(|p| p.name == j.pkg)) {
+                    if si.interface_text(pj_in_i) != sj.interface_text(pj_in_j) {
+                        *self.st.probes.entry("prediction_skipped_mixed_source_generations").or_insert(0) += 1;
+                        return;
+                    }
+                }
+            }
+        }
         // packages not offered are not part of the program; prediction only uses offered ones
         let Some(pred) = comp.predict_stdout() else { return };
         let Ok((go, _)) = link_ast(self.sb, paths, entropy) else { return };
@@ -763,6 +780,8 @@ fn edit_applicable(proj: &Project, e: &Edit) -> bool {
             *s < pk.structs.len() && (!matches!(e, Edit::RenameField { .. }) || !pk.structs[*s].fields.is_empty())
         }
         Edit::AddVariant { e: en, .. } => *en < pk.enums.len(),
+        Edit::SwapVariants { e: en, .. } => *en < pk.enums.len() && pk.enums[*en].variants.len() >= 2,
+        Edit::SwapFields { s, .. } => *s < pk.structs.len() && pk.structs[*s].fields.len() >= 2,
         Edit::AddTraitMethod { t, .. } => *t < pk.traits.len(),
         _ => true,
     }
